@@ -403,6 +403,13 @@ func init() {
 		return p
 	}
 
+	planTable["C23"] = enumPlan("exploration",
+		"Every sequence of up to 4 (quick) / 5 (thorough, plus value-log GC) operations out of {inline set, value-log set, delete, flush, compaction, advance the (virtual) clock past the data-key rotation interval, close/re-open, master-key rotation (the two library calls the badger rotate command makes: OpenKeyRegistry with the old key, WriteKeyRegistry with the new one), open with a wrong key} on a database encrypted with a 16-, 24- or 32-byte master key (rotating over the cases), data-key rotation interval 1 s. After every step: Get and iteration equal a map model (so data written under earlier data keys and before a master-key rotation stays readable); no file of the directory (tables, WAL, value log, MANIFEST, KEYREGISTRY, DISCARD, LOCK) contains a user key or a distinctive value prefix in plaintext; no two encryption calls used the same (data key id, IV) pair (y.VerifIV hook in the record encoder and the block encryptor); after a master-key rotation the old key no longer opens the database; an open with a wrong key fails with ErrEncryptionKeyMismatch and leaves every file byte-identical.",
+		"Runs inside a synctest bubble (virtual clock drives data-key rotation). The rotate command lives in package badger/cmd, which cannot be imported from the package under test; its two library calls are made directly.",
+		"recursive enumeration of operation sequences; distinct = distinct (master key size, sequence); counters: encryptions observed, data keys used",
+		[]Stage{en("c23enc", 16, 90, prm("len", 4))},
+		[]Stage{en("c23enc", 16, 1500, prm("len", 5, "alphabet", "S B D F C G A R K W"))})
+
 	planTable["C24"] = func(q bool) *Plan {
 		p := &Plan{Level: "model_checking", Engine: "E-enum + E-sched",
 			Text:      "Histories: every sequence of up to 4 (quick) / 5 (thorough) operations out of {set a, set b, delete a, set a with discard-earlier-versions, set a already expired, set a with a future expiry, flush, compaction, backup point} on a source DB with NumVersionsToKeep 1 and 100. At every backup point an incremental backup is taken with exactly the version the previous backup returned; at the end a last incremental and a full backup. The full backup loaded into an empty DB and the chain loaded in order into another both show the source's final visible state (value, user meta, expiry through Get and iteration); with NumVersionsToKeep 100 the restored version list of every key equals the source's versions down to and including the first delete / expired / discard-earlier entry plus the delete marker Backup adds below a discard-earlier entry; the version a full backup returns is the newest version it dumped; after Load a new commit gets a timestamp above every loaded version and is read back. Schedules: a full backup with two producer goroutines over four accounts in different key ranges races a transaction moving an amount between the first and the last; then an incremental backup from the returned version; under every interleaving up to the bound, loading full + incremental reproduces the source's final state.",
